@@ -95,7 +95,7 @@ def variants(kind, ctor, rng, quick):
             p["tags"][idx] = list(t)
         return [lambda p, t=t: f(p, t) for t in TAGS]
     if kind == "TAGS":
-        return [lambda p, n=n: p.__setitem__("tags", [list(t) for t in TAGS[:n]]) for n in (1, 2, 3, 6)]
+        return [lambda p, n=n: p.__setitem__("tags", [list(t) for t in TAGS[:n]]) for n in (1, 2, 3, 6, 15, 16, 17, 31, 32, len(TAGS))]      # (argument counts around 16 / 32: nothing may be cut off)
     if kind == "F":
         return [lambda p, f=f: p.__setitem__("filter", f) for f in FILTERS]
     return [lambda p: None]
